@@ -328,6 +328,39 @@ _core._PATCH_REGISTRATIONS[_io.BytesIO] = lambda *a: (PyBytesIO(*a) if BYTESIO_M
 
 
 # --------------------------------------------------------------------------- #
+# bytes.decode(errors='backslashreplace'): CrossHair models strict/ignore/replace and realises the whole
+# input for every other handler. Same loop, with the offending byte rendered as \\xNN symbolically.
+# --------------------------------------------------------------------------- #
+from crosshair.libimpl.encodings import _encutil as _eu
+
+_orig_decode = _eu.StemEncoder.decode.__func__
+_HEX = '0123456789abcdef'
+
+
+def _hexdigit(v):
+    # v in 0..15 (possibly symbolic) -> one-character str, without realising v
+    return chr(v + 48 + 39 * (v >= 10))     # branch-free: no fork per nibble
+
+
+def _decode(cls, input, errors='strict'):
+    if errors != 'backslashreplace':
+        return _orig_decode(cls, input, errors)
+    parts = []
+    idx = 0
+    inputlen = len(input)
+    while idx < inputlen:
+        out, idx, err = cls._decode_chunk(input, idx)
+        parts.append(out)
+        if err is not None:
+            b = input[idx]
+            parts.append(chr(92) + 'x' + _hexdigit(b // 16) + _hexdigit(b % 16))
+            idx += 1
+    return ''.join(parts), idx
+
+
+_eu.StemEncoder.decode = classmethod(_decode)
+
+# --------------------------------------------------------------------------- #
 # os.path.normpath (C implementation in 3.12 realises its argument): CPython's own
 # pure-Python fallback algorithm, kept symbolic
 # --------------------------------------------------------------------------- #
@@ -433,4 +466,38 @@ def selftest():
             n += 1
             if _normpath_model(p) != _real_normpath(p):
                 errs.append(('normpath', p, _normpath_model(p), _real_normpath(p)))
+    return n, errs
+
+
+def selftest_symbolic():
+    """Models that only exist on CrossHair's symbolic containers (bytes.split, decode(backslashreplace)):
+    differential test against CPython inside a stand-alone state space (~5 s)."""
+    import itertools
+    from crosshair.core_and_libs import standalone_statespace
+    n = 0
+    errs = []
+    with standalone_statespace:
+        for L in range(0, 5):
+            for tup in itertools.product(b'a\r\n :', repeat=L):
+                s = bytes(tup)
+                for sep, mx in ((b'\r\n', 1), (b' ', 2), (b':', 1), (b':', 2), (None, -1), (None, 1), (b'://', 1)):
+                    with NoTracing():
+                        sb = B.SymbolicBytes(list(s))
+                    got = sb.split(sep, mx)
+                    with NoTracing():
+                        got = [bytes(B.realize(x)) if not isinstance(x, bytes) else x for x in got]
+                    n += 1
+                    if got != s.split(sep, mx):
+                        errs.append(('split', s, sep, mx, got))
+        for L in range(0, 4):
+            for tup in itertools.product([0x41, 0x80, 0xc3, 0xa9, 0xff, 0xe2, 0x82, 0xac, 0xf0, 0x7f], repeat=L):
+                s = bytes(tup)
+                with NoTracing():
+                    sb = B.SymbolicBytes(list(s))
+                got = sb.decode('utf-8', 'backslashreplace')
+                with NoTracing():
+                    got = B.realize(got)
+                n += 1
+                if got != s.decode('utf-8', 'backslashreplace'):
+                    errs.append(('decode', s, got))
     return n, errs
